@@ -1,7 +1,7 @@
 SPECIFICATION MCSpec
-CONSTANTS P = 7
- NMin = 4
- NMax = 4
+CONSTANTS P = 11
+ NMin = 5
+ NMax = 6
  TMax = 3
  KeyMode = "id"
  VerifyMode = "pairing"
